@@ -1252,3 +1252,63 @@ pub fn read_sample_scenario(options: DbOptions, levels: &[(usize, Vec<VFile>)], 
 pub fn table_path(options: &DbOptions, n: u64) -> std::path::PathBuf {
     crate::file_names::FileNameHandler::new(options.db_path().to_string()).get_table_file_path(n)
 }
+
+/// Cursor over a level made of several table files: `files[i]` is the list of entries (user_key, seq, is_put, value) of table
+/// `10 + i`; the file metadata bounds are the first / last entry. One of "first", "last", "seek", "next", "prev" per step.
+/// Returns the (user key, sequence, first value byte) under the cursor after every step (None = invalid).
+pub fn level_iter_cursor(
+    options: &DbOptions,
+    files: &[Vec<(Vec<u8>, u64, bool, Vec<u8>)>],
+    ops: &[&str],
+    target: (&[u8], u64),
+) -> Option<Vec<Option<(Vec<u8>, u64, u8)>>> {
+    use crate::versioning::file_iterators::FilesEntryIterator;
+    let mut metas = vec![];
+    for (i, entries) in files.iter().enumerate() {
+        let number = 10 + i as u64;
+        let mut b = TableBuilder::new(options.clone(), number).ok()?;
+        for e in entries {
+            b.add_entry(std::rc::Rc::new(InternalKey::new(e.0.clone(), e.1, op(e.2))), &e.3).ok()?;
+        }
+        b.finalize().ok()?;
+        let mut m = FileMetadata::new(number);
+        m.set_file_size(b.file_size());
+        let first = entries.first()?;
+        let last = entries.last()?;
+        m.set_smallest_key(Some(InternalKey::new(first.0.clone(), first.1, op(first.2))));
+        m.set_largest_key(Some(InternalKey::new(last.0.clone(), last.1, op(last.2))));
+        metas.push(Arc::new(m));
+        core::mem::forget(b);
+    }
+    let tc = Arc::new(TableCache::new(options.clone(), 10));
+    let mut it = FilesEntryIterator::new(metas, tc, ReadOptions { fill_cache: false, snapshot: None });
+    let mut out = vec![];
+    for o in ops {
+        match *o {
+            "first" => {
+                let _ = it.seek_to_first();
+            }
+            "last" => {
+                let _ = it.seek_to_last();
+            }
+            "seek" => {
+                let _ = it.seek(&InternalKey::new_for_seeking(target.0.to_vec(), target.1));
+            }
+            "next" => {
+                if !it.is_valid() {
+                    break;
+                }
+                it.next();
+            }
+            "prev" => {
+                if !it.is_valid() {
+                    break;
+                }
+                it.prev();
+            }
+            _ => return None,
+        }
+        out.push(if it.is_valid() { it.current().map(|(k, v)| (k.get_user_key().to_vec(), k.get_sequence_number(), v[0])) } else { None });
+    }
+    Some(out)
+}
